@@ -1141,7 +1141,7 @@ def run(chk, tier, seed):
         if not chk.violations:
             raise common.MachineryError("no donor trace for the negative control: " + what)
     corrupt("list trace with a dispatch in reversed order accepted",
-            lambda e: e["o"]["op"] == "dispatch" and len(e["ret"]) >= 2 and e["ret"][0] != e["ret"][1],
+            lambda e: e["o"]["op"] == "dispatch" and len(e["ret"]) >= 2 and e["ret"] != e["ret"][::-1],
             lambda e: e.update(ret=e["ret"][::-1]))
     corrupt("list trace in which storing a non-callback raised nothing accepted",
             lambda e: e["o"]["op"] in ("insert", "setitem", "append") and e["exc"] == "TypeError",
